@@ -30,6 +30,7 @@ THEOREMS = ["C20_status0", "C20_never_panics", "C20_status0_refuted", "C20_exit_
             "C20_decoder_total", "C20_decoder_ok_shape", "C20_decoder_rejects",
             "C20_complete_file_based", "C20_complete_primary", "C20_complete_external",
             "C20_nested_complete_refuted", "C20_listed_request_never_scans_all", "C20_foreign_request_records_nothing",
+            "C20_foreign_guard_fields", "C20_foreign_request_both_kinds",
             "C20_ex_workspace", "C20_ex_dotdot", "C20_ex_gone_cwd", "C20_ex_dotdot_reentry", "C20_ex_complete_hyps",
             "C20_ex_decoder"]
 CLAIM = {
@@ -1266,6 +1267,46 @@ def witness(args):
             in_own = any("d0.txt" in fs for k, fs in logs["rad"])
             in_ra = any(fs for k, fs in logs["ra"])
             return not (rc == 0 and in_own and not in_ra)
+        if which == "G2":
+            # every preset that can send a pre-edit (Human) report, and its post-edit twin: the only listed file belongs
+            # to the sibling repository rb; ra (cwd / repo_working_dir) has dirty files nobody listed and must stay untouched
+            f = rb + "/b0.txt"
+            t = W.tdir
+            cs = t + "/copilot_session_1.json"
+            reports = [
+                ("agent-v1", O(type="human", repo_working_dir=ra, will_edit_filepaths=[f])),
+                ("agent-v1", O(type="ai_agent", repo_working_dir=ra, edited_filepaths=[f], transcript=O(messages=[]),
+                               agent_name="toolx", model="m1", conversation_id="g2")),
+                ("claude", O(hook_event_name="PreToolUse", transcript_path=t + "/claude.jsonl", cwd=ra, tool_input=O(file_path=f))),
+                ("claude", O(hook_event_name="PostToolUse", transcript_path=t + "/claude.jsonl", cwd=ra, tool_input=O(file_path=f))),
+                ("gemini", O(hook_event_name="BeforeTool", session_id="s1", transcript_path=t + "/gemini.json", cwd=ra,
+                             tool_input=O(file_path=f))),
+                ("continue-cli", O(hook_event_name="PreToolUse", session_id="s1", transcript_path=t + "/continue.json", cwd=ra,
+                                   model="m", tool_input=O(file_path=f))),
+                ("github-copilot", O(hook_event_name="before_edit", workspace_folder=ra, will_edit_filepaths=[f])),
+                ("github-copilot", O(hook_event_name="after_edit", workspace_folder=ra, chat_session_path=cs, session_id="s1",
+                                     edited_filepaths=[f])),
+                ("github-copilot", O(hookEventName="PreToolUse", cwd=ra, toolName="create_file", sessionId="s1",
+                                     toolInput=O(filePath=f), transcriptPath=cs)),
+                ("amp", O(hook_event_name="PreToolUse", tool_use_id="tu1", thread_id="T-1", cwd=ra, edited_filepaths=[f])),
+                ("ai_tab", O(hook_event_name="before_edit", tool="tab", model="m", repo_working_dir=ra, will_edit_filepaths=[f])),
+                ("ai_tab", O(hook_event_name="after_edit", tool="tab", model="m", repo_working_dir=ra, edited_filepaths=[f])),
+                ("droid", O(cwd=ra, hookEventName="PreToolUse", tool_name="Edit", tool_input=O(filePath=f))),
+                ("opencode", O(hook_event_name="PreToolUse", session_id="s1", cwd=ra, tool_input=O(filePath=f))),
+                ("opencode", O(hook_event_name="PostToolUse", session_id="s1", cwd=ra, tool_input=O(filePath=f))),
+            ]
+            bad = []
+            for k, (preset, v) in enumerate(reports):
+                _w(ra + "/a1.txt", f"somebody else's unreported edit {k}\n", "a")
+                _w(ra + "/new_unlisted.txt", f"x{k}\n", "a")
+                _w(f, f"edit {k}\n", "a")
+                before, _ = W.read_logs()
+                rc, err = W.run(preset, jtext(v), cwd=ra)
+                after, _ = W.read_logs()
+                new = W.new_entries(before, after)
+                if rc != 0 or any(rp == "ra" for rp, _, _ in new) or ERR_MARK[preset] in err:
+                    bad.append((preset, jtext(v)[:120], rc, new))
+            return bool(bad)
         if which == "K8":
             # (a) the buffer of a nested repository's file must not be recorded in the outer repository
             f = ra + "/inner/i0.txt"
@@ -1313,6 +1354,8 @@ FIXED = {
     "K7": "fixed C20-K7 (one listed path git refuses made git status fail and lost every file of that pass)",
     "K8": "fixed C20-K8 (dirty_files: the buffer of a nested repository's file was recorded in the outer repository; a relative key "
           "was recorded as a non-existent file of every other repository the request was forwarded to)",
+    "G2": "guard: a pre-edit (Human, will_edit_filepaths) or post-edit report of any preset whose only listed file belongs to "
+          "another repository records nothing in the repository of the working directory, whatever is dirty there",
     "G1": "guard: a file of a sibling repository whose directory name extends this repository's name (ra / ra-docs) is recorded "
           "in its own repository only (work-dir membership is component-wise, not a string prefix)",
 }
